@@ -12,7 +12,7 @@ CONSTANTS
 {invs}
 CHECK_DEADLOCK FALSE
 """
-INVS = ["Serializable", "MutualExclusion", "DiskOpenable", "ReaderNeverFails", "SnapshotIsCommitted", "NoDeadlock"]
+INVS = ["Serializable", "MutualExclusion", "DiskOpenable", "ReaderNeverFails", "SnapshotIsCommitted", "HeldReaderStable", "NoDeadlock"]
 
 
 def _mc(name, scn, lock="TRUE", hold="TRUE", timeout=3000):
@@ -90,8 +90,15 @@ def run_c06(v):
         lib.require_mc_ok(r, f"MC_Conc {name}")
         st += r["distinct"]
         tr += r["states"]
+    if not quick:   # ~1.5 M states; the quick tier keeps only the refutation of the LazyFetch mutation below
+        r = _mc("held", "held", timeout=5000)
+        lib.require_mc_ok(r, "MC_Conc held (kept reader fetches after commits and compaction)")
+        st += r["distinct"]
+        tr += r["states"]
     r = _mc("asbuilt", "readers", hold="FALSE")
     lib.expect_mc_violation(r, "MC_Conc reader releases the manifest lock early (S06a)", {"ReaderNeverFails"})
+    r = _mc("held_lazy", "held_lazy")
+    lib.expect_mc_violation(r, "MC_Conc kept reader opens stored fields at first fetch (seeded change r2-C06)", {"ReaderNeverFails"})
     cases = lib.outpath("cases", "C06-sched.ndjson")
     n = _schedules(v, 25 if quick else 300, cases)
     t = _traces(v, {"C06"}, 20 if quick else 300, 15 if quick else 200, cases)
@@ -100,6 +107,7 @@ def run_c06(v):
         "tlc_generated_schedules_enacted": n,
         "mc_bounds": "reader open steps x commit publish x compaction lock/publish/unlock/cleanup steps, 2 commits + 1 compaction + 2 reader opens",
         "as_built_refuted_by_model": ["S06a reader releases the manifest lock before opening its segments"],
+        "mutation_refuted_by_model": ["kept reader opens a segment's stored-field file at its first fetch (LazyFetch)"],
         "samples": t["samples"], "exhaustive": False,
     })
     v.assumptions += [
